@@ -5,6 +5,8 @@ import (
 
 	"google.golang.org/grpc/codes"
 	"google.golang.org/grpc/status"
+
+	"github.com/smart-core-os/sc-golang/internal/simhook"
 )
 
 // Router tracks a registry of gRPC clients.
@@ -47,6 +49,7 @@ func NewRouter(opts ...Option) Router {
 }
 
 func (r *router) Add(name string, client any) any {
+	simhook.BeforeLock("router.add", &r.mu)
 	r.mu.Lock()
 	old := r.registry[name]
 	r.registry[name] = client
@@ -63,6 +66,7 @@ func (r *router) HoldsType(_ any) bool {
 }
 
 func (r *router) Remove(name string) any {
+	simhook.BeforeLock("router.remove", &r.mu)
 	r.mu.Lock()
 	old, ok := r.registry[name]
 	if !ok {
@@ -79,6 +83,7 @@ func (r *router) Remove(name string) any {
 }
 
 func (r *router) Has(name string) bool {
+	simhook.BeforeRLock("router.has", &r.mu)
 	r.mu.RLock()
 	defer r.mu.RUnlock()
 	_, exists := r.registry[name]
@@ -97,15 +102,18 @@ func (r *router) Has(name string) bool {
 //
 // Note, no locks are held when invoking fallbacks, factories, or callbacks.
 func (r *router) Get(name string) (child any, err error) {
+	simhook.BeforeRLock("router.get.read", &r.mu)
 	r.mu.RLock()
 	child, exists := r.registry[name]
 	r.mu.RUnlock()
 	if !exists {
+		simhook.Yield("router.get.miss")
 		child, exists, err = invoke(name, r.fallback)
 	}
 	if !exists {
 		child, exists, err = invoke(name, r.factory)
 		if exists {
+			simhook.BeforeLock("router.get.insert", &r.mu)
 			r.mu.Lock()
 			// check again
 			var newChildRemembered bool
